@@ -8,7 +8,8 @@
 EXTENDS TestRunner, SequencesExt, Json, IOUtils, TLC
 
 CONSTANTS
-  Family,      \* "api": Package::run_tests from a host; "cli": the roto binary
+  Family,      \* "api": Package::run_tests from a host; "cli": the roto binary;
+               \* "disk" / "diskcli": the same two, over package DIRECTORIES (see "disk families")
   MaxTests1,   \* max number of test blocks in single-module packages
   MaxTests2,   \* max number of test blocks in two-module packages
   TNames,      \* names of test blocks (strings, see Code)
@@ -24,7 +25,14 @@ CONSTANTS
   NoDups,      \* BOOLEAN: leave out packages with duplicate test names (body families)
   ModShapes,   \* shapes of the module tree: subset of {"single","sub","nested"}
   SubFnNames,  \* cli: names of unit functions that may exist in the modules below the root
-  RunMods      \* cli: module paths of the entry names passed to `run` (strings, see ModCode)
+  RunMods,     \* cli: module paths of the entry names passed to `run` (strings, see ModCode)
+  DiskOpt,     \* disk: indices of DiskUniverse (2..) that a package directory may contain
+  DiskMaxOpt,  \* disk: at most that many of them at once
+  DiskOrders,  \* disk: orders in which the entries are created: subset of {"fwd","rev"}
+  DiskRoots,   \* disk: set of BOOLEAN: TRUE: pkg.roto exists, FALSE: it does not
+  BadKinds,    \* disk: what may be wrong with one file: subset of {"reject","type","syntax","notest"}
+  DiskMaxBad,  \* disk: at most that many files (1 or 2) have something wrong
+  DiskTNames   \* disk: the name all test blocks of a package directory share
 
 Code(s) == CASE s = "a"    -> <<97>>
              [] s = "b"    -> <<98>>
@@ -36,6 +44,13 @@ Code(s) == CASE s = "a"    -> <<97>>
              [] s = "test" -> <<116, 101, 115, 116>>
              [] s = "tesu" -> <<116, 101, 115, 117>>
              [] s = "main" -> MAIN
+             [] s = "c"    -> <<99>>
+             [] s = "d"    -> <<100>>
+             [] s = "e"    -> <<101>>
+             [] s = "n"    -> <<110>>
+             [] s = "r"    -> <<114>>
+             [] s = "s"    -> <<115>>
+             [] s = "g"    -> <<103>>
 
 Code120 == <<120>>   \* "x": never the name of a module of a package
 ModCode(s) == CASE s = ""    -> Root
@@ -88,7 +103,109 @@ Cmds == IF Family = "api"
                \cup {[kind |-> "run", explicit |-> TRUE, mod |-> ModCode(m), fn |-> Code(n)]
                       : m \in RunMods, n \in RunNames}
 
-MCInit ==
+-----------------------------------------------------------------------------
+(* disk families: package DIRECTORIES.                                       *)
+(*                                                                           *)
+(* TLC enumerates                                                            *)
+(*   shape     : every subset (of at most DiskMaxOpt elements) of the        *)
+(*               optional entries DiskOpt of DiskUniverse, with or without   *)
+(*               pkg.roto: module files, module directories (nested), files  *)
+(*               inside module directories, several sub-directories next to  *)
+(*               files, directories without mod.roto (with Roto files and    *)
+(*               module directories inside), empty directories, files that   *)
+(*               are not Roto files.  Leaving out a mod.roto turns everything *)
+(*               below that directory into files outside the package;        *)
+(*   order     : the entries are created in the order of DiskUniverse or in  *)
+(*               the reverse order (every pair of entries in both orders);   *)
+(*   placement x outcome : every file (inside or outside the package) holds  *)
+(*               one accepting test block, except for at most DiskMaxBad     *)
+(*               files, anywhere in the tree, whose block rejects / is       *)
+(*               missing / which hold a type or syntax error;                *)
+(*   diskcli   : every file also holds a `fn main()`; check / test / run on  *)
+(*               the directory, and run with `<module path>.main` for the    *)
+(*               module path of every file.                                  *)
+(* What must be observed is computed by TestRunner from the documented rules *)
+(* (LiveMods): the marks of the blocks of exactly the module files, in the   *)
+(* order of their full names, the verdict, the exit status.                  *)
+DE(d, s, x) == [dir |-> d, stem |-> s, ext |-> x, mod |-> FileMod([dir |-> d, stem |-> s])]
+
+DiskUniverse ==
+  << DE(<<>>, PKG, "roto"),                                  \*  1  pkg.roto
+     DE(<<>>, Code("b"), "roto"),                            \*  2  b.roto
+     DE(<<Code("a")>>, MODSTEM, "roto"),                     \*  3  a/mod.roto
+     DE(<<Code("a")>>, Code("s"), "roto"),                   \*  4  a/s.roto
+     DE(<<Code("a"), Code("d")>>, MODSTEM, "roto"),          \*  5  a/d/mod.roto
+     DE(<<Code("c")>>, MODSTEM, "roto"),                     \*  6  c/mod.roto
+     DE(<<Code("n")>>, Code("r"), "txt"),                    \*  7  n/r.txt
+     DE(<<>>, Code("e"), "dir"),                             \*  8  e/            (empty)
+     DE(<<>>, Code("r"), "txt"),                             \*  9  r.txt
+     DE(<<Code("n")>>, Code("g"), "roto"),                   \* 10  n/g.roto
+     DE(<<Code("a"), Code("d")>>, Code("t"), "roto"),        \* 11  a/d/t.roto
+     DE(<<Code("c")>>, Code("u"), "roto"),                   \* 12  c/u.roto
+     DE(<<Code("a")>>, Code("e"), "dir"),                    \* 13  a/e/          (empty)
+     DE(<<Code("n"), Code("m")>>, MODSTEM, "roto") >>        \* 14  n/m/mod.roto
+
+IsDiskFamily == Family \in {"disk", "diskcli"}
+
+DiskShapes == {S \in SUBSET DiskOpt : Cardinality(S) <= DiskMaxOpt}
+DiskSeq(root, S, ord) ==
+  LET fwd == SelectSeq([k \in 1..Len(DiskUniverse) |-> k], LAMBDA k : (k = 1 /\ root) \/ k \in S)
+      ks  == IF ord = "fwd" THEN fwd ELSE Reverse(fwd)
+  IN  [i \in 1..Len(ks) |-> DiskUniverse[ks[i]]]
+
+DiskFiles(dk) == {k \in 1..Len(dk) : dk[k].ext # "dir"}
+
+(* what is wrong, where: a set of [at: index of a file, kind] with distinct files, *)
+(* at most one of them an unrelated error (a package has one `broken` field)        *)
+BadSets(dk) ==
+  LET B  == [at : DiskFiles(dk), kind : BadKinds]
+      C  == {{}} \cup {{x} : x \in B} \cup (IF DiskMaxBad >= 2 THEN {{x, y} : x, y \in B} ELSE {})
+  IN  {bs \in C : /\ \A x, y \in bs : x.at = y.at => x = y
+                   /\ Cardinality({z \in bs : z.kind \in {"type", "syntax"}}) <= 1}
+
+KindAt(bs, k) == IF \E x \in bs : x.at = k THEN (CHOOSE x \in bs : x.at = k).kind ELSE "none"
+
+DiskTests(dk, bs, tn) ==
+  LET ks == SelectSeq([k \in 1..Len(dk) |-> k], LAMBDA k : dk[k].ext # "dir" /\ KindAt(bs, k) # "notest")
+  IN  [i \in 1..Len(ks) |->
+         [mod |-> dk[ks[i]].mod, name |-> tn, call |-> NoCall, body |-> "plain",
+          out |-> IF KindAt(bs, ks[i]) = "reject" THEN "reject" ELSE "accept"]]
+
+DiskFuncs(dk) ==
+  IF Family = "diskcli"
+    THEN LET ks == SelectSeq([k \in 1..Len(dk) |-> k], LAMBDA k : dk[k].ext # "dir")
+         IN  [j \in 1..Len(ks) |-> Fn(dk[ks[j]].mod, MAIN, "unit")]
+    ELSE <<>>
+
+DiskBroken(dk, bs) ==
+  LET X == {x \in bs : x.kind \in {"type", "syntax"}}
+  IN  IF X = {} THEN [kind |-> "none", at |-> Root]
+      ELSE LET b == CHOOSE z \in X : TRUE IN [kind |-> b.kind, at |-> dk[b.at].mod]
+
+DiskCmds(dk, bs) ==
+  IF Family = "disk"
+    THEN {[kind |-> "api", explicit |-> FALSE, mod |-> Root, fn |-> MAIN]}
+    ELSE {[kind |-> k, explicit |-> FALSE, mod |-> Root, fn |-> MAIN] : k \in {"check", "test", "run"}}
+         \cup (IF bs = {} THEN {[kind |-> "run", explicit |-> TRUE, mod |-> dk[k].mod, fn |-> MAIN]
+                                  : k \in DiskFiles(dk)}
+                           ELSE {})
+
+DiskInit ==
+  \E root \in DiskRoots :
+  \E S \in DiskShapes :
+  \E ord \in DiskOrders :
+  \E tn \in {Code(n) : n \in DiskTNames} :
+     LET dk == DiskSeq(root, S, ord) IN
+     /\ dk # <<>>
+     /\ (~root => Cardinality(S) <= 1)            \* without pkg.roto nothing is a module: small shapes
+     /\ \E bs \in BadSets(dk) :
+        \E c \in DiskCmds(dk, bs) :
+           /\ (~root => bs = {})
+           /\ LET br == DiskBroken(dk, bs) IN
+              Init([mods |-> <<Root>>, tests |-> DiskTests(dk, bs, tn), funcs |-> DiskFuncs(dk),
+                    broken |-> br.kind, fnpos |-> "mixed", disk |-> dk, brokenAt |-> br.at], c)
+
+MemInit ==
   \E ms \in ModSeqs :
   \E ts \in BaseSeqs(ms) :
   \E pr \in Probes(Len(ts)) :
@@ -97,7 +214,9 @@ MCInit ==
   \E fp \in FnPositions :
   \E c \in Cmds :
      Init([mods |-> ms, tests |-> WithCall(ts, pr), funcs |-> SetToSeq(F), broken |-> br,
-           fnpos |-> fp], c)
+           fnpos |-> fp, disk |-> <<>>, brokenAt |-> Root], c)
+
+MCInit == IF IsDiskFamily THEN DiskInit ELSE MemInit
 
 MCSpec == MCInit /\ [][Next]_vars
 
@@ -105,9 +224,14 @@ MCSpec == MCInit /\ [][Next]_vars
 OrderInv ==
   (phase = "done" /\ cmd.kind \in {"api", "test"}) => TestMarksOf(log) = Sorted(TIdx)
 
+(* disk packages: which entries are source files of the package (for the     *)
+(* classification of the cases only; the expectations are the fields below)   *)
+DiskLive == [k \in DIdx(pkg) |-> pkg.disk[k].ext # "dir" /\ pkg.disk[k].mod \in LiveMods]
+
 Case == [pkg |-> pkg, cmd |-> cmd,
          compiles |-> (phase = "done"),
-         ntests |-> Len(Tests),
+         ntests |-> Cardinality(TIdx),
+         live |-> DiskLive,
          log |-> log, verdict |-> verdict, exit |-> exit, entry_runs |-> entryRuns]
 
 Emit == Ended => PrintT(<<"REPLAY", ToJson(Case)>>)
